@@ -378,4 +378,9 @@ def r8_cli(F, R):
     roles.check_cli_surface(F, R, "runner::basic::Cli", only=r"^fail_fast$")
     R.floor(1)
 
-RULES = [("R1", r1, None), ("R2", r2, None), ("R3", r3, None), ("R4", r4, None), ("R5", r5, None), ("R6", r6, None), ("R7", r7_setters, None), ("R8", r8_cli, None)]
+def r9_init(F, R):
+    """Fail-fast is off unless asked for: `Basic::default()` stores `fail_fast: false` (= C18.R12)."""
+    from . import c18
+    c18.r12_init(F, R)
+
+RULES = [("R1", r1, None), ("R2", r2, None), ("R3", r3, None), ("R4", r4, None), ("R5", r5, None), ("R6", r6, None), ("R7", r7_setters, None), ("R8", r8_cli, None), ("R9", r9_init, None)]
